@@ -298,8 +298,8 @@ register("C01", lean_modules=['FsModel.PFlood', 'FsModel.Descent', 'FsModel.Tilt
          sections={"elev", "update"} | GRAPH_SECTIONS, nontrivial=raised_or_rerouted, tags=tags_flow,
          rule="random grids (raster 3 connectivities/border mixes, profile, mesh) x elevation families (ties, plateaus, zero, subnormal, huge, nested cones) x masks x base-level sets x six resolver variants [+ multi router]; non-trivial = at least one node was raised by the resolver",
          trusted_base=FLOW_TB)
-register("C02", lean_modules=["FsModel.PFlood", "FsProofs.Properties.C02", "FsProofs.Properties.C02MstRouter", "FsProofs.Properties.C02MstExample", "FsProofs.Properties.C02MstUpperExample", "FsProofs.Properties.Closed"],
-         theorems=["Fs.C02Mst.resolve_c02_upper_singleRouter", "Fs.C02Mst.resolve_c02_spill_level_singleRouter", "Fs.C02Mst.resolve_le_spill", "Fs.C02Mst.low_of_path", "Fs.C02Mst.resolve_newpath_bounded", "Fs.C02Mst.resolve_c02_singleRouter", "Fs.C02Mst.resolve_ge_input", "Fs.C02Mst.resolve_fixed", "Fs.C02Mst.resolve_fixed_above", "Fs.C02Mst.resolve_exact_shape", "Fs.C02Mst.resolve_chain", "Fs.C02Mst.resolve_ge_spill_carve", "Fs.C02Mst.tilt_shape", "Fs.Closed.raster_C02_mst",
+register("C02", lean_modules=["FsProofs.Properties.ClosedMore", "FsModel.PFlood", "FsProofs.Properties.C02", "FsProofs.Properties.C02MstRouter", "FsProofs.Properties.C02MstExample", "FsProofs.Properties.C02MstUpperExample", "FsProofs.Properties.Closed"],
+         theorems=["Fs.Closed.raster_C02_pflood", "Fs.Closed.raster_C02_mst_upper", "Fs.Closed.raster_C02_mst_spill_level", "Fs.Closed.mesh_C02_mst_upper", "Fs.Closed.sf_ubLaws", "Fs.C02Mst.resolve_c02_upper_singleRouter", "Fs.C02Mst.resolve_c02_spill_level_singleRouter", "Fs.C02Mst.resolve_le_spill", "Fs.C02Mst.low_of_path", "Fs.C02Mst.resolve_newpath_bounded", "Fs.C02Mst.resolve_c02_singleRouter", "Fs.C02Mst.resolve_ge_input", "Fs.C02Mst.resolve_fixed", "Fs.C02Mst.resolve_fixed_above", "Fs.C02Mst.resolve_exact_shape", "Fs.C02Mst.resolve_chain", "Fs.C02Mst.resolve_ge_spill_carve", "Fs.C02Mst.tilt_shape", "Fs.Closed.raster_C02_mst",
                    "Fs.C02.pflood_ge_input", "Fs.C02.pflood_fixed", "Fs.C02.pflood_ge_spill", "Fs.C02.pflood_le_spill", "Fs.C02.run_erase", "Fs.C02.ubInit_erase", "Fs.C02.ubInit_inv", "Fs.pflood_parent", "Fs.pflood_complete"], gen=gen_resolved, oracles=[oracle.c02], sections={"elev"}, nontrivial=raised_or_rerouted, tags=tags_flow,
          rule="same scenario family as C01; oracle = independent Bellman minimax spill level; non-trivial = some node raised",
          trusted_base=FLOW_TB)
@@ -323,7 +323,7 @@ register("C06", lean_modules=['FsModel.Donors', 'FsModel.Dfs', 'FsProofs.DfsPerm
          model_certs={"cert_c06": ("1", "tables_certificate", "the Lean checker checkC06 (soundness: Fs.ImplCheck.checkC06_sound) rejects the donors / bottom-up order / breadth-first levels REPORTED BY THE IMPLEMENTATION")},
          nontrivial=has_pits_or_multi, tags=tags_flow,
          rule="all operator families incl. spanning-tree re-routing, masks, repeated updates on one object; snapshots' tables checked too", trusted_base=FLOW_TB)
-register("C19", lean_modules=['FsModel.Basins', 'FsProofs.Properties.C19', 'FsProofs.Properties.ImplCheck'], theorems=['Fs.C19.basins_spec', 'Fs.ImplCheck.checkBasins_sound', 'Fs.ImplCheck.checkBasins_drain', 'Fs.C19.run_blocks', 'Fs.Basins.run_block', 'Fs.Basins.block_labels_agree'], gen=lambda r, t: gen_any_ops(r, t, basins=True), oracles=[oracle.c19], sections={"basins", "outlets", "pits"},
+register("C19", lean_modules=["FsProofs.Properties.ClosedMore", 'FsModel.Basins', 'FsProofs.Properties.C19', 'FsProofs.Properties.ImplCheck'], theorems=["Fs.Closed.raster_C19_basins", "Fs.Closed.mesh_C19_basins", "Fs.Closed.profile_C19_basins", 'Fs.C19.basins_spec', 'Fs.ImplCheck.checkBasins_sound', 'Fs.ImplCheck.checkBasins_drain', 'Fs.C19.run_blocks', 'Fs.Basins.run_block', 'Fs.Basins.block_labels_agree'], gen=lambda r, t: gen_any_ops(r, t, basins=True), oracles=[oracle.c19], sections={"basins", "outlets", "pits"},
          model_certs={"cert_c19": ("1", "basins_certificate", "the Lean checker checkBasins (soundness: Fs.ImplCheck.checkBasins_sound) rejects the labels / outlets / pits REPORTED BY THE IMPLEMENTATION")},
          nontrivial=has_pits_or_multi, tags=tags_flow,
          rule="basins/outlets/pits after every single-direction sequence, masks, carve/basic re-routing, repeated calls", trusted_base=FLOW_TB)
@@ -1007,18 +1007,18 @@ def spl_nontrivial(si):
 SPL_TB = FLOW_TB + ["std::pow of the C++ side and Float.pow of the Lean runtime are the same libm function (bit-identical results observed on every compared scenario)",
                     "SPL theorems are over an ordered field (exact arithmetic); rounding is covered by the bit-exact correspondence and the oracle's documented allowance",
                     "the m_linear classification expression and the Newton exit test are regenerated from spl.hpp by translate.py"]
-register("C12", lean_modules=["FsProofs.Properties.C12", "FsProofs.Properties.C13"], theorems=["Fs.C13.erode_zero", "Fs.C13.erode_floor", "Fs.C13.erode_nonneg", "Fs.C13.sweep_final", "Fs.C13.erode_look", "Fs.C12.nodeStep_skip", "Fs.C12.nodeStep_linear", "Fs.C12.spl_floor", "Fs.C12.spl_nonneg", "Fs.C12.fold_linear", "Fs.C12.contribs_nonneg"],
+register("C12", lean_modules=["FsProofs.Properties.ClosedMore", "FsProofs.Properties.C12", "FsProofs.Properties.C13"], theorems=["Fs.Closed.raster_C12_spl_single", "Fs.Closed.raster_C12_spl_multi", "Fs.Closed.erode_nonneg_routed", "Fs.C13.erode_zero", "Fs.C13.erode_floor", "Fs.C13.sweep_final", "Fs.C13.erode_look", "Fs.C12.nodeStep_skip", "Fs.C12.nodeStep_linear", "Fs.C12.spl_floor", "Fs.C12.spl_nonneg", "Fs.C12.fold_linear", "Fs.C12.contribs_nonneg"],
          gen=gen_spl, oracles=[oracle.c12], cause=oracle.spl_cause, nontrivial=spl_nontrivial, tags=spl_tags,
          sections={"erosion", "ncorr", "spl"},
          rule="routed graphs (single / parallel single / multi, pflood or spanning-tree resolved or unresolved, masks, interior base levels) x K scalar/array (0 .. 1, x0.1..3 variation) x m in {.3,.5,1} x n in {.5,.8,1,1.5,2,4} x tol x dt in {0,1,10,100,1e4,1e8} x random areas up to 1e6; 1-2 erode() calls per update on one eroder object, elevation = routed field or another field; non-trivial = some erosion is non-zero")
-register("C13", lean_modules=["FsProofs.Properties.C12", "FsProofs.Properties.C13"], theorems=["Fs.C13.erode_residual", "Fs.C13.erode_newton_residual", "Fs.C13.spl_newton_residual", "Fs.C13.newton_exit", "Fs.C13.newton_none_iff", "Fs.C13.nodeStep_newton_single", "Fs.C13.sweep_final", "Fs.C12.spl_residual", "Fs.C12.nodeStep_linear", "Fs.C12.fold_linear", "Fs.Spl.solve_residual"],
+register("C13", lean_modules=["FsProofs.Properties.ClosedMore", "FsProofs.Properties.C12", "FsProofs.Properties.C13"], theorems=["Fs.Closed.raster_C12_spl_single", "Fs.Closed.raster_C12_spl_multi", "Fs.C13.erode_residual", "Fs.C13.erode_newton_residual", "Fs.C13.spl_newton_residual", "Fs.C13.newton_exit", "Fs.C13.newton_none_iff", "Fs.C13.nodeStep_newton_single", "Fs.C13.sweep_final", "Fs.C12.spl_residual", "Fs.C12.nodeStep_linear", "Fs.C12.fold_linear", "Fs.Spl.solve_residual"],
          gen=gen_spl, oracles=[oracle.c13], cause=oracle.spl_cause, nontrivial=spl_nontrivial, tags=spl_tags,
          sections={"erosion", "ncorr", "spl"},
          rule="same scenario family as C12; oracle evaluates the residual of the backward-Euler equation at every non-limited node (double arithmetic with a stated bound: tolerance + 64 eps x sensitivity-weighted magnitudes); non-trivial = some erosion is non-zero")
 for _p in ("C12", "C13"):
     PROPS[_p]["trusted_base"] = SPL_TB
 _lvl("C12", "proof",
-     "Theorems about the executed Fs.Spl.nodeStep / erode over an arbitrary linearly ordered field with abstract pow >= 0, lifted to the WHOLE sweep (sweep_final: along a duplicate-free bottom-up order every node's final erosion is the one its own step wrote, computed from receivers that were already final): erode_zero (base levels, pits, masked nodes and nodes at or below their lowest receiver's new level get zero erosion), erode_floor (the new elevation is never below the lowest new elevation among the receivers: no slope reversal, no new depression), erode_nonneg (every erosion >= -tiny for K, dt >= 0 and positive distances), erode_look (the returned array is that table), for any number of receivers on the closed-form path; per-node: nodeStep_skip, nodeStep_linear, spl_floor, spl_nonneg. Non-negativity on the Newton path, the rejection of non-linear exponents on multiple-direction graphs and overflow (D13) are tied by the bit-exact correspondence and the oracle only.",
+     "Theorems about the executed Fs.Spl.nodeStep / erode over an arbitrary linearly ordered field with abstract pow >= 0, lifted to the WHOLE sweep (sweep_final: along a duplicate-free bottom-up order every node's final erosion is the one its own step wrote, computed from receivers that were already final): erode_zero (base levels, pits, masked nodes and nodes at or below their lowest receiver's new level get zero erosion), erode_floor (the new elevation is never below the lowest new elevation among the receivers: no slope reversal, no new depression), erode_nonneg_routed (every erosion >= -tiny for K, dt >= 0 and positive distances on the routed rows - the first version, erode_nonneg, asked for positive distances on every row, which terminal rows (distance 0) never satisfy; kept only as a lemma), erode_look (the returned array is that table), for any number of receivers on the closed-form path; per-node: nodeStep_skip, nodeStep_linear, spl_floor, spl_nonneg. Non-negativity on the Newton path, the rejection of non-linear exponents on multiple-direction graphs and overflow (D13) are tied by the bit-exact correspondence and the oracle only.",
      "Lean 4 ordered-field proofs on the executed sweep (per-node step lifted along the bottom-up order) + translator-regenerated classification/exit test + bit-exact correspondence + sign/lake/floor oracle")
 _lvl("C13", "proof",
      "Theorems about the executed Fs.Spl.nodeStep / erode (exact arithmetic): erode_residual (closed-form path, any number of receivers: whenever the step is not limited, new - old + sum over the contributing receivers of K dt (A w)^m / distance * (new - receiver's FINAL new elevation) = 0), newton_exit / newton_none_iff (the Newton loop returns either an iterate that passes the exit test regenerated from the source - two-sided |func| <= tol - or a non-positive next iterate; none only when the fuel is exhausted), nodeStep_newton_single + spl_newton_residual + erode_newton_residual (slope exponent != 1, single receiver: the new elevation is receiver's new elevation + accepted iterate, clamped as on the linear path, and when not limited with a positive accepted iterate the backward-Euler residual new - old + K dt (A w)^m / d^n * pow(new - receiver's new, n) is within the Newton tolerance), for every positive exponent (pow abstract). Convergence of Newton (that an accepted iterate exists within the fuel) is not proved: tied by bit-exact correspondence and the residual oracle.",
@@ -1327,8 +1327,8 @@ register("C10", gen=gen_parallel, runner=c10_runner, oracles=[oracle.c10], watch
          nontrivial=lambda si: sum(1 for c in si.calls if c.cmd == "graph") >= 2 and any(c.cmd == "kernel" and int(c.toks[2]) > 1 and "kernel" in c.O for c in si.calls),
          tags=par_tags, sections={"update", "elev", "acc", "acc_overloads_agree", "basins", "outlets", "pits", "kernel", "kvisits", "graph"} | GRAPH_SECTIONS,
          rule="cached raster, cache-less raster, profile and mesh grids; operator families with a single router (plain, flooded, spanning-tree resolved, followed by a multi router); every scenario runs the same 1-3 updates (+ accumulate, basins, kernels) first with sequential routers, then with 2..16 threads; kernels applied sequentially and with thread counts 2..16 x minimum block sizes x minimum level sizes in breadth-first / any / depth-first order; everything under ASan and again under the thread sanitizer; non-trivial = both graphs ran and a multi-threaded kernel returned",
-         lean_modules=["FsProofs.Properties.C10", "FsProofs.Properties.C10Kernel"],
-         theorems=["Fs.C10.kernel_par_eq_seq", "Fs.C10.multi_kernel_par_eq_seq", "Fs.C10.single_kernel_par_eq_seq", "Fs.C10.level_nonInterfering", "Fs.C10.level_par_eq_seq", "Fs.C10.kernel_par_exists", "Fs.C10.blockSlices_global",
+         lean_modules=["FsProofs.Properties.ClosedMore", "FsProofs.Properties.C10", "FsProofs.Properties.C10Kernel"],
+         theorems=["Fs.Closed.raster_C10_kernel_single", "Fs.Closed.raster_C10_kernel_multi", "Fs.Closed.mesh_C10_kernel_single", "Fs.C10.kernel_par_eq_seq", "Fs.C10.multi_kernel_par_eq_seq", "Fs.C10.single_kernel_par_eq_seq", "Fs.C10.level_nonInterfering", "Fs.C10.level_par_eq_seq", "Fs.C10.kernel_par_exists", "Fs.C10.blockSlices_global",
                    "Fs.C10.par_rows_eq_seq", "Fs.C10.par_tables_eq_seq", "Fs.C10.source_nocache_per_thread", "Fs.Commute.schedules_agree", "Fs.C11.index_in_unique_block", "Fs.C11.no_stuck_state", "Fs.C11.exactly_once"],
          trusted_base=FLOW_TB + ["footprints of the per-node router task (own receiver row, own neighbour buffer) are read off the source by hand; the storage class of the pass-through neighbour buffer is regenerated by translate.py",
                                  "thread interleavings are explored by the OS scheduler under TSan/ASan and by repeated runs, not enumerated"])
